@@ -29,6 +29,7 @@ type cfg struct {
 	Summary  string
 	Witness  bool
 	AllTorn  bool
+	Proto    bool
 }
 
 var (
@@ -61,11 +62,29 @@ type gen struct {
 	configs int
 	lockEvs []hx.Ev
 	ntx     int
+	protos  [2]*hx.Recorder
 	// forceOpt, when set, overrides the randomly chosen storage options (C19)
 	forceOpt func(o *nutsdb.Options)
 }
 
 func pick(r *rand.Rand, xs []string) string { return xs[r.Intn(len(xs))] }
+
+// protoRec returns the protocol-trace recorder for histories with the given SyncEnable.
+func (g *gen) protoRec(sync bool) *hx.Recorder {
+	i := 0
+	if sync {
+		i = 1
+	}
+	if g.protos[i] == nil {
+		r, err := hx.NewRecorder(fmt.Sprintf("%s.proto%d", g.c.Out, i))
+		if err != nil {
+			fmt.Fprintln(os.Stderr, "harness:", err)
+			os.Exit(2)
+		}
+		g.protos[i] = r
+	}
+	return g.protos[i]
+}
 
 // fpick picks from xs, but inside a "focused" transaction it returns the
 // transaction's single target for this slot most of the time, so that the
@@ -789,6 +808,12 @@ func (g *gen) histMixed(o mixOpts) {
 	defer obs.Uninstall()
 	obs.KeepData = false
 	g.start(mode, rwOf(g.c.RW, g.r), seg)
+	if g.c.Proto {
+		g.s.Proto = g.protoRec(g.s.Opt.SyncEnable)
+		g.s.ProtoEpoch(true)
+		obs.OnMut = g.s.ProtoMut
+		defer func() { g.s.Proto = nil }()
+	}
 	big := make([]byte, seg) // an entry larger than the segment
 	for i := range big {
 		big[i] = 'x'
@@ -1014,6 +1039,7 @@ func main() {
 	flag.StringVar(&c.Mode, "mode", "any", "index mode")
 	flag.StringVar(&c.RW, "rw", "any", "rw mode")
 	flag.StringVar(&c.Summary, "summary", "", "write a JSON summary here")
+	flag.BoolVar(&c.Proto, "proto", false, "also write the protocol-grain event streams <out>.proto0 / <out>.proto1 (SyncEnable off / on)")
 	flag.BoolVar(&c.AllTorn, "alltorn", false, "crash families: tear writes at every record-field boundary")
 	flag.BoolVar(&c.Witness, "witness", false, "run the known-finding witnesses of the family instead of random histories")
 	openImg := flag.String("openimage", "", "child mode: open this image directory and print what it serves")
@@ -1124,6 +1150,11 @@ func main() {
 	if err := rec.Close(); err != nil {
 		fmt.Fprintln(os.Stderr, "harness:", err)
 		os.Exit(2)
+	}
+	for _, pr := range g.protos {
+		if pr != nil {
+			pr.Close()
+		}
 	}
 	if len(g.lockEvs) > 0 {
 		lr, err := hx.NewRecorder(c.Out + ".lock")
